@@ -599,6 +599,34 @@ def c13_grid():
                             for inp in shp:
                                 inp.fault = 'grid:param_twice'
                                 cases.append(inp)
+    # (C) `bound` on a companion trait's type-level attribute while its primary is educed (either order of the two
+    #     names, every spelling of the parameter): the companion impl comes from the primary's handler with the
+    #     primary's bounds, the written bound would be dropped
+    for primary, companion in (('PartialEq', 'Eq'), ('Clone', 'Copy'), ('Ord', 'PartialOrd')):
+        for b in SP['bound']:
+            for tm in ('%s, %s(%s)' % (primary, companion, b), '%s(%s), %s' % (companion, b, primary)):
+                for inp in shapes([primary, companion], tm, 'type', None):
+                    inp.fault = 'grid:companion_bound'
+                    cases.append(inp)
+    # (D) a Default item on a variant / a field while the type-level `Default(..)` carries an expression: the value is
+    #     that expression, the item below would be dropped (only the empty list `Default()` says nothing)
+    below = ['Default', 'Default = 5', 'Default(expression = 5)', 'Default(expr(5))', 'Default = "5"']
+    for key in ('expression = %s', 'expr(%s)', 'new, expr = %s'):
+        for b in below:
+            e = lambda txt: [D.educe(txt)] if txt else []
+            te = lambda v: e('Default(%s)' % (key % v))
+            shp = [D.Input('struct', 'S', attrs=te('S { a: 0, b: 0 }'), fkind='named', fields=[D.Field('a', 'u8'), D.Field('b', 'u16', attrs=e(b))]),
+                   D.Input('struct', 'S', attrs=te('S(0)'), fkind='unnamed', fields=[D.Field(None, 'u8', attrs=e(b))]),
+                   D.Input('union', 'U', attrs=te('U { a: 1 }'), fields=[D.Field('a', 'u8', attrs=e(b)), D.Field('b', 'u16')]),
+                   D.Input('union', 'U', attrs=te('U { a: 1 }'), fields=[D.Field('a', 'u8', attrs=e(b))]),
+                   D.Input('enum', 'E', attrs=te('E::A'), variants=[D.Variant('A', 'unit', fields=[]), D.Variant('B', 'unnamed', fields=[D.Field(None, 'u8', attrs=e(b))])]),
+                   D.Input('enum', 'E', attrs=te('E::A'), variants=[D.Variant('A', 'unit', fields=[]), D.Variant('B', 'named', fields=[D.Field('x', 'u8', attrs=e(b))])])]
+            if b == 'Default':
+                shp += [D.Input('enum', 'E', attrs=te('E::B(1)'), variants=[D.Variant('A', 'unit', fields=[], attrs=e(b)), D.Variant('B', 'unnamed', fields=[D.Field(None, 'u8')])]),
+                        D.Input('enum', 'E', attrs=te('E::A'), variants=[D.Variant('A', 'unit', fields=[], attrs=e(b))])]
+            for inp in shp:
+                inp.fault = 'grid:default_beside_type_expression'
+                cases.append(inp)
     for inp in cases:
         inp.notes = {}; inp.traits = []
     return cases
